@@ -18,6 +18,7 @@ import LA.Proofs.RuleWire
 import LA.Proofs.RulePrint
 import LA.Proofs.RuleExit
 import LA.Proofs.RuleText
+import LA.Proofs.RuleTextStr
 
 namespace LA.Rule
 open LA LA.Flags
@@ -982,6 +983,386 @@ example : ((ruleDataOf ⟨false, [], []⟩ (.syscall 3 (ofString "exit") (ofStri
      ⟨2, ofString "exit", [61], ofString "-2"⟩] [] [])).map (fun r =>
       r.allSyscalls && r.syscalls.isEmpty && decide (r.trips.length = 3) &&
       r.trips.all (fun t => !(stringFields.contains t.1) && !(t.1 == LA.Gen.RuleTables.archField) &&
+        !(t.1 == LA.Gen.RuleTables.fieldCompare) && !(t.1 == LA.Gen.RuleTables.permField)))) = some true := by
+  decide +kernel
+
+/-! ### the text half composed over a whole line: numeric and string-valued filters -/
+
+/-- re-adding the printed parts of a run of printable triples (numeric or string-valued), one after
+the other, appends exactly those triples and exactly their strings. -/
+theorem foldl_addFilter_mixed (env : Env) (he : EnvOk env) (ts : List (Nat × Nat × Nat)) (names : List (Bytes × Bytes))
+    (ss : List Bytes) (hlen : names.length = ts.length)
+    (hn : ∀ (i : Nat) (t : Nat × Nat × Nat) (nm : Bytes × Bytes), ts[i]? = some t → names[i]? = some nm → PTrip t nm.1 nm.2)
+    (r0 : RuleData) (hsa : SAligned env r0.flags ts ss)
+    (hj : ∀ t ∈ ts, stringFields.contains t.1 = false → Justified env r0.flags t)
+    (hperm : ∀ t ∈ ts, t.1 = LA.Gen.RuleTables.permField → t.2.1 ≠ 0) :
+    ((partsMixed ts names (rhsList ts ss)).map mkFilter).foldl (fun (acc : Option RuleData) f =>
+        acc.bind fun r =>
+          if (f.typ == 2) = true then addFilter env r f.lhs f.op f.rhs
+          else if (f.typ == 1) = true then addInterField r f.lhs f.op f.rhs
+          else some r) (some r0) = some { r0 with trips := r0.trips ++ ts, strings := r0.strings ++ ss } := by
+  have nd1 : (LA.Gen.RuleTables.fieldsTable.map (·.1)).Nodup := by decide +kernel
+  have nd2 : (LA.Gen.RuleTables.operatorsTable.map (·.1)).Nodup := by decide +kernel
+  induction ts generalizing names ss r0 with
+  | nil =>
+    simp only [SAligned] at hsa
+    subst hsa
+    simp [partsMixed]
+  | cons t ts ih =>
+    cases names with
+    | nil => simp at hlen
+    | cons nm names =>
+      have h0 := hn 0 t nm rfl rfl
+      simp only [SAligned] at hsa
+      by_cases hs : stringFields.contains t.1 = true
+      · rw [if_pos hs] at hsa
+        obtain ⟨s, rest, rfl, hv, hok, hr⟩ := hsa
+        have hf := lookupB_of_revLookup nd1 h0.lhs
+        have ho := lookupB_of_revLookup nd2 h0.op
+        have step : addFilter env r0 nm.1 nm.2 s = some { r0 with trips := r0.trips ++ [t], strings := r0.strings ++ [s] } := by
+          unfold addFilter
+          simp only [hf, ho, hok.2, Bool.false_eq_true, if_false]
+          rw [filterValue_flags0 env r0 { flags := r0.flags } rfl, hok.1]
+          simp only [Option.map_some, ← hv]
+        simp only [rhsList, hs, if_true, partsMixed, List.map_cons, List.foldl_cons, Option.bind_some, mkFilter,
+          beq_self_eq_true, step]
+        have := ih names rest (by simpa using hlen)
+          (fun i t' nm' ht hnm => hn (i + 1) t' nm' (by simpa using ht) (by simpa using hnm))
+          { r0 with trips := r0.trips ++ [t], strings := r0.strings ++ [s] } hr
+          (fun x hx => hj x (by simp [hx])) (fun x hx => hperm x (by simp [hx]))
+        simp only [mkFilter] at this
+        rw [this]
+        simp [List.append_assoc]
+      · rw [if_neg hs] at hsa
+        have hs' : stringFields.contains t.1 = false := by simpa using hs
+        obtain ⟨⟨rhs0, a, hb⟩, hex⟩ := hj t (by simp) hs'
+        have hb' : filterValue env r0 t.1 t.2.2 rhs0 = some (t.2.1, none, a) := by
+          rw [filterValue_flags env r0 { flags := r0.flags } rfl]; exact hb
+        have step := (C07_filter_reparse env he r0 t.1 t.2.1 t.2.2 nm.1 nm.2 rhs0 a h0.lhs h0.op hs' h0.notArch hb' hex
+          (hperm t (by simp))).2
+        simp only [rhsList, hs', Bool.false_eq_true, if_false, partsMixed, List.map_cons, List.foldl_cons, Option.bind_some, mkFilter,
+          beq_self_eq_true, if_true, step]
+        have := ih names ss (by simpa using hlen)
+          (fun i t' nm' ht hnm => hn (i + 1) t' nm' (by simpa using ht) (by simpa using hnm))
+          { r0 with trips := r0.trips ++ [(t.1, t.2.1, t.2.2)] } hsa
+          (fun x hx => hj x (by simp [hx])) (fun x hx => hperm x (by simp [hx]))
+        simp only [mkFilter] at this
+        rw [this]
+        simp [List.append_assoc]
+
+/-- field names are non-empty words and operator names are among the eight the -F expression knows. -/
+theorem names_facts {f opc : Nat} {lhs opS : Bytes}
+    (hlhs : revLookup LA.Gen.RuleTables.fieldsTable f = some lhs)
+    (hops : revLookup LA.Gen.RuleTables.operatorsTable opc = some opS) :
+    lhs ≠ [] ∧ (∀ b ∈ lhs, isReWord b = true) ∧ opS ∈ filterOps := by
+  have names_ok : LA.Gen.RuleTables.fieldsTable.all (fun p => !p.1.isEmpty && p.1.all isReWord) = true := by decide +kernel
+  have ops_ok : LA.Gen.RuleTables.operatorsTable.all (fun p => filterOps.contains p.1) = true := by decide +kernel
+  have hlhs_ok : lhs ≠ [] ∧ ∀ b ∈ lhs, isReWord b = true := by
+    unfold revLookup at hlhs
+    cases hfd : LA.Gen.RuleTables.fieldsTable.find? (fun p => p.2 == f) with
+    | none => rw [hfd] at hlhs; simp at hlhs
+    | some q =>
+      rw [hfd] at hlhs
+      simp only [Option.map_some, Option.some.injEq] at hlhs
+      have := List.all_eq_true.mp names_ok q (List.mem_of_find?_eq_some hfd)
+      simp only [Bool.and_eq_true, Bool.not_eq_true', List.all_eq_true] at this
+      rw [hlhs] at this
+      exact ⟨by intro h; simp [h] at this, this.2⟩
+  have hop_mem : opS ∈ filterOps := by
+    unfold revLookup at hops
+    cases hfd : LA.Gen.RuleTables.operatorsTable.find? (fun p => p.2 == opc) with
+    | none => rw [hfd] at hops; simp at hops
+    | some q =>
+      rw [hfd] at hops
+      simp only [Option.map_some, Option.some.injEq] at hops
+      have := List.all_eq_true.mp ops_ok q (List.mem_of_find?_eq_some hfd)
+      rw [hops] at this
+      simpa using this
+  exact ⟨hlhs_ok.1, hlhs_ok.2, hop_mem⟩
+
+/-- every printed part of a run of printable triples is split by the -F expression into itself. -/
+theorem partsMixed_match (env : Env) (he : EnvOk env) (fl : Nat) (ts : List (Nat × Nat × Nat)) (names : List (Bytes × Bytes))
+    (ss : List Bytes) (hlen : names.length = ts.length)
+    (hn : ∀ (i : Nat) (t : Nat × Nat × Nat) (nm : Bytes × Bytes), ts[i]? = some t → names[i]? = some nm → PTrip t nm.1 nm.2)
+    (hsa : SAligned env fl ts ss)
+    (hj : ∀ t ∈ ts, stringFields.contains t.1 = false → Justified env fl t)
+    (hperm : ∀ t ∈ ts, t.1 = LA.Gen.RuleTables.permField → t.2.1 ≠ 0)
+    (hstr : ∀ s ∈ ss, ∃ c tl, s = c :: tl ∧ c ≠ 61) :
+    ∀ p ∈ partsMixed ts names (rhsList ts ss), matchFilter (p.1 ++ p.2.1 ++ p.2.2) = some p := by
+  induction ts generalizing names ss with
+  | nil => intro p hp; simp [partsMixed] at hp
+  | cons t ts ih =>
+    cases names with
+    | nil => simp at hlen
+    | cons nm names =>
+      have h0 := hn 0 t nm rfl rfl
+      simp only [SAligned] at hsa
+      by_cases hs : stringFields.contains t.1 = true
+      · rw [if_pos hs] at hsa
+        obtain ⟨s, rest, rfl, hv, hok, hr⟩ := hsa
+        obtain ⟨c, tl, rfl, hc⟩ := hstr s (by simp)
+        obtain ⟨f1, f2, f3⟩ := names_facts h0.lhs h0.op
+        intro p hp
+        simp only [rhsList, hs, if_true, partsMixed, List.mem_cons] at hp
+        rcases hp with rfl | hp
+        · exact C07_filter_token_reparse nm.1 nm.2 c tl f1 f2 f3 hc
+        · exact ih names rest (by simpa using hlen)
+            (fun i t' nm' ht hnm => hn (i + 1) t' nm' (by simpa using ht) (by simpa using hnm)) hr
+            (fun x hx => hj x (by simp [hx])) (fun x hx => hperm x (by simp [hx]))
+            (fun x hx => hstr x (by simp [hx])) p hp
+      · rw [if_neg hs] at hsa
+        have hs' : stringFields.contains t.1 = false := by simpa using hs
+        obtain ⟨⟨rhs0, a, hb⟩, hex⟩ := hj t (by simp) hs'
+        have hm := (C07_filter_reparse env he { flags := fl } t.1 t.2.1 t.2.2 nm.1 nm.2 rhs0 a h0.lhs h0.op hs' h0.notArch hb hex
+          (hperm t (by simp))).1
+        intro p hp
+        simp only [rhsList, hs', Bool.false_eq_true, if_false, partsMixed, List.mem_cons] at hp
+        rcases hp with rfl | hp
+        · exact hm
+        · exact ih names ss (by simpa using hlen)
+            (fun i t' nm' ht hnm => hn (i + 1) t' nm' (by simpa using ht) (by simpa using hnm)) hsa
+            (fun x hx => hj x (by simp [hx])) (fun x hx => hperm x (by simp [hx])) hstr p hp
+
+theorem partsMixed_length (ts : List (Nat × Nat × Nat)) (names : List (Bytes × Bytes)) (vals : List Bytes)
+    (h1 : names.length = ts.length) (h2 : vals.length = ts.length) : (partsMixed ts names vals).length = ts.length := by
+  induction ts generalizing names vals with
+  | nil => simp [partsMixed]
+  | cons t ts ih =>
+    cases names with
+    | nil => simp at h1
+    | cons nm names =>
+      cases vals with
+      | nil => simp at h2
+      | cons v vals => simp [partsMixed, ih names vals (by simpa using h1) (by simpa using h2)]
+
+
+/-- the generic second half of the text round trip: if the printed parts each re-parse into
+themselves and re-adding them rebuilds the rule's triples and strings, then the tokens of the line
+are accepted by flags.Parse and Build re-encodes to byte-identical wire data. -/
+theorem reparse_of_parts (env : Env) (r : RuleData) (l a : Bytes)
+    (hl : getList r.flags = some l) (ha : getAction r.action = some a)
+    (parts : List (Bytes × Bytes × Bytes))
+    (hmatch : ∀ t ∈ parts, matchFilter (t.1 ++ t.2.1 ++ t.2.2) = some t)
+    (hfold' : (parts.map mkFilter).foldl (fun (acc : Option RuleData) f =>
+        acc.bind fun r =>
+          if (f.typ == 2) = true then addFilter env r f.lhs f.op f.rhs
+          else if (f.typ == 1) = true then addInterField r f.lhs f.op f.rhs
+          else some r) (some { flags := r.flags, action := r.action, allSyscalls := true }) =
+        some { flags := r.flags, action := r.action, allSyscalls := true, trips := r.trips, strings := r.strings })
+    (hall : r.allSyscalls = true) (hsys : r.syscalls = []) :
+    ∃ rule' r', parseArgs (numericTokens r.flags l a parts) = some rule' ∧
+      ruleDataOf env rule' = some r' ∧ r'.trips = r.trips ∧ toWire r' = toWire r := by
+  have hadd := setAdd_print hl ha
+  have hsetA : setFlag {} 97 (a ++ [44] ++ l) = some (fsAfter l a [] [97] []) := by
+    unfold setFlag
+    simp only [beq_self_eq_true, if_true, hadd, Option.map_some, fsAfter, List.map_nil, List.nil_append]
+  have hsplit : splitList (ofString "all") = [ofString "all"] := by decide +kernel
+  have hnot : ∀ (x : Nat), x ∈ List.replicate parts.length 70 → x = 70 := fun x hx => (List.mem_replicate.mp hx).2
+  by_cases hexit : (r.flags == LA.Gen.RuleTables.exitFilter || r.flags == LA.Gen.RuleTables.entryFilter) = true
+  · have htok : numericTokens r.flags l a parts = tokA :: (a ++ [44] ++ l) :: tokS :: ofString "all" :: (fTokens parts ++ []) := by
+      simp only [numericTokens, hexit, if_true, List.cons_append, List.nil_append, List.append_nil]
+    have hfuel : (numericTokens r.flags l a parts).length + 1 = (((3 + parts.length) + parts.length) + 1) + 1 := by
+      rw [htok]
+      simp only [List.length_cons, List.length_append, List.length_nil, fTokens_length]
+      omega
+    have hloop : parseLoop ((numericTokens r.flags l a parts).length + 1) (numericTokens r.flags l a parts) {} =
+        some (fsAfter l a [ofString "all"] ([97] ++ [83] ++ List.replicate parts.length 70) parts, 0) := by
+      rw [hfuel, htok, parseLoop_a, hsetA]
+      simp only [Option.bind_some]
+      rw [parseLoop_S]
+      have hsetS : setFlag (fsAfter l a [] [97] []) 83 (ofString "all") = some (fsAfter l a [ofString "all"] ([97] ++ [83]) []) := by
+        unfold setFlag
+        simp only [show ((83 : Nat) == 97) = false by decide, show ((83 : Nat) == 65) = false by decide,
+          show ((83 : Nat) == 67) = false by decide, show ((83 : Nat) == 70) = false by decide, Bool.false_eq_true,
+          if_false, beq_self_eq_true, if_true, hsplit, fsAfter, List.map_nil, List.nil_append]
+      rw [hsetS]
+      simp only [Option.bind_some]
+      rw [parseLoop_fTokens parts hmatch]
+      have e3 : 3 + parts.length = (2 + parts.length) + 1 := by omega
+      rw [e3]
+      simp only [fsAfter, List.map_nil, List.nil_append, parseLoop]
+    have hfin : finish (fsAfter l a [ofString "all"] ([97] ++ [83] ++ List.replicate parts.length 70) parts) =
+        some (.syscall 3 l a (parts.map mkFilter) [ofString "all"] []) := by
+      unfold finish fsAfter
+      have c1 : ([97] ++ [83] ++ List.replicate parts.length 70).contains 68 = false := by
+        simp only [List.contains_eq_mem, decide_eq_false_iff_not, List.mem_append, List.mem_cons, List.mem_nil_iff, or_false]
+        intro hh
+        rcases hh with (hh | hh) | hh
+        · omega
+        · omega
+        · have := hnot 68 hh; omega
+      have c2 : ([97] ++ [83] ++ List.replicate parts.length 70).any (fun n => n == 119 || n == 112) = false := by
+        rw [List.any_eq_false]
+        intro x hx
+        simp only [List.mem_append, List.mem_cons, List.mem_nil_iff, or_false] at hx
+        rcases hx with (rfl | rfl) | hx
+        · decide
+        · decide
+        · rw [hnot x hx]; decide
+      have c3 : ([97] ++ [83] ++ List.replicate parts.length 70).any (fun n => n == 97 || n == 65 || n == 67 || n == 70 || n == 83) = true := by
+        simp
+      simp only [c1, c2, c3]
+      rfl
+    have hparse : parseArgs (numericTokens r.flags l a parts) = some (.syscall 3 l a (parts.map mkFilter) [ofString "all"] []) := by
+      unfold parseArgs
+      rw [hloop]
+      simp only [Nat.lt_irrefl, if_false, gt_iff_lt]
+      exact hfin
+    have hrd : ruleDataOf env (.syscall 3 l a (parts.map mkFilter) [ofString "all"] []) =
+        some { flags := r.flags, action := r.action, allSyscalls := true, explicitAll := true, trips := r.trips, strings := r.strings } := by
+      simp only [ruleDataOf, setList_getList hl, setAction_getAction ha, hfold']
+      simp [addSyscall, addKeys]
+    refine ⟨_, _, hparse, hrd, rfl, ?_⟩
+    exact toWire_congr _ _ rfl rfl rfl rfl hall.symm hsys.symm
+  · have hexit' : (r.flags == LA.Gen.RuleTables.exitFilter || r.flags == LA.Gen.RuleTables.entryFilter) = false := by
+      simpa using hexit
+    have htok : numericTokens r.flags l a parts = tokA :: (a ++ [44] ++ l) :: (fTokens parts ++ []) := by
+      simp only [numericTokens, hexit', Bool.false_eq_true, if_false, List.cons_append, List.nil_append, List.append_nil]
+    have hfuel : (numericTokens r.flags l a parts).length + 1 = ((2 + parts.length) + parts.length) + 1 := by
+      rw [htok]
+      simp only [List.length_cons, List.length_append, List.length_nil, fTokens_length]
+      omega
+    have hloop : parseLoop ((numericTokens r.flags l a parts).length + 1) (numericTokens r.flags l a parts) {} =
+        some (fsAfter l a [] ([97] ++ List.replicate parts.length 70) parts, 0) := by
+      rw [hfuel, htok, parseLoop_a, hsetA]
+      simp only [Option.bind_some]
+      rw [parseLoop_fTokens parts hmatch]
+      have e3 : 2 + parts.length = (1 + parts.length) + 1 := by omega
+      rw [e3]
+      simp only [fsAfter, List.map_nil, List.nil_append, parseLoop]
+    have hfin : finish (fsAfter l a [] ([97] ++ List.replicate parts.length 70) parts) =
+        some (.syscall 3 l a (parts.map mkFilter) [] []) := by
+      unfold finish fsAfter
+      have c1 : ([97] ++ List.replicate parts.length 70).contains 68 = false := by
+        simp only [List.contains_eq_mem, decide_eq_false_iff_not, List.mem_append, List.mem_cons, List.mem_nil_iff, or_false]
+        intro hh
+        rcases hh with hh | hh
+        · omega
+        · have := hnot 68 hh; omega
+      have c2 : ([97] ++ List.replicate parts.length 70).any (fun n => n == 119 || n == 112) = false := by
+        rw [List.any_eq_false]
+        intro x hx
+        simp only [List.mem_append, List.mem_cons, List.mem_nil_iff, or_false] at hx
+        rcases hx with rfl | hx
+        · decide
+        · rw [hnot x hx]; decide
+      have c3 : ([97] ++ List.replicate parts.length 70).any (fun n => n == 97 || n == 65 || n == 67 || n == 70 || n == 83) = true := by
+        simp
+      simp only [c1, c2, c3]
+      rfl
+    have hparse : parseArgs (numericTokens r.flags l a parts) = some (.syscall 3 l a (parts.map mkFilter) [] []) := by
+      unfold parseArgs
+      rw [hloop]
+      simp only [Nat.lt_irrefl, if_false, gt_iff_lt]
+      exact hfin
+    have hrd : ruleDataOf env (.syscall 3 l a (parts.map mkFilter) [] []) =
+        some { flags := r.flags, action := r.action, allSyscalls := true, trips := r.trips, strings := r.strings } := by
+      simp only [ruleDataOf, setList_getList hl, setAction_getAction ha, hfold']
+      simp [addKeys]
+    refine ⟨_, _, hparse, hrd, rfl, ?_⟩
+    exact toWire_congr _ _ rfl rfl rfl rfl hall.symm hsys.symm
+
+
+/-- Second clause of C07 as one theorem for the class of all-syscalls rules whose filters are numeric
+**or string-valued** (path, dir, exe, key — including the joined keys of `-k` — and the SELinux
+fields), i.e. every syscall rule Build accepts that has no arch filter, no inter-field comparison
+and no explicit syscall list, is not of the exact shape `-w` produces, and whose string values are
+non-empty and do not begin with '='. For such a rule (1) ToCommandLine's text is
+`-a action,list [-S all] -F f1 … -F fn` with one element per filter, numeric values printed by
+`fieldRhs` and strings verbatim, (2) the tokens of that text are accepted by flags.Parse, and Build
+on the result accumulates the same triples and the same strings in the same order, and (3) the
+wire data is byte-identical. (Shell tokenisation is outside the model, as in C14; a string with
+white space or quotes would not survive it — KF-C07-backslash is the recorded instance.) -/
+theorem C07_roundtrip_filters (env : Env) (he : EnvOk env) (rule : Rule) (r : RuleData)
+    (hr : ruleDataOf env rule = some r)
+    (hcls : ∀ t ∈ r.trips, (t.1 == LA.Gen.RuleTables.archField) = false ∧ (t.1 == LA.Gen.RuleTables.fieldCompare) = false)
+    (hperm : ∀ t ∈ r.trips, t.1 = LA.Gen.RuleTables.permField → t.2.1 ≠ 0)
+    (hstr : ∀ s ∈ r.strings, ∃ c tl, s = c :: tl ∧ c ≠ 61)
+    (hw : asFileWatch r = none)
+    (hall : r.allSyscalls = true) (hsys : r.syscalls = []) :
+    ∃ (l a : Bytes) (names : List (Bytes × Bytes)),
+      getList r.flags = some l ∧ getAction r.action = some a ∧ names.length = r.trips.length ∧
+      cmdLineOf r = some (joinWith [32] ([ofString "-a", a ++ [44] ++ l] ++
+        (if r.flags == LA.Gen.RuleTables.exitFilter || r.flags == LA.Gen.RuleTables.entryFilter then [ofString "-S", ofString "all"] else []) ++
+        (partsMixed r.trips names (rhsList r.trips r.strings)).map (fun p => ofString "-F " ++ p.1 ++ p.2.1 ++ p.2.2))) ∧
+      ∃ rule' r', parseArgs (numericTokens r.flags l a (partsMixed r.trips names (rhsList r.trips r.strings))) = some rule' ∧
+        ruleDataOf env rule' = some r' ∧ r'.trips = r.trips ∧ toWire r' = toWire r := by
+  have hp := printInv_ruleDataOf he hr
+  have hal := aligned_ruleDataOf hr
+  have hsa := saligned_ruleDataOf hr
+  have hjust := justified_ruleDataOf hr
+  cases hl : getList r.flags with
+  | none => have := hp.list; rw [hl] at this; cases this
+  | some l =>
+  cases ha : getAction r.action with
+  | none => have := hp.action; rw [ha] at this; cases this
+  | some a =>
+  have hnames : ∀ t ∈ r.trips, ∃ nm : Bytes × Bytes, PTrip t nm.1 nm.2 := by
+    intro t ht
+    obtain ⟨h2, h3⟩ := hcls t ht
+    have hok := hp.trips t ht
+    unfold tripOk at hok
+    simp only [Bool.and_eq_true, h2, Bool.false_eq_true, if_false, h3] at hok
+    cases ho : revLookup LA.Gen.RuleTables.operatorsTable t.2.2 with
+    | none => rw [ho] at hok; cases hok.1
+    | some opS =>
+      cases hf : revLookup LA.Gen.RuleTables.fieldsTable t.1 with
+      | none => rw [hf] at hok; cases hok.2
+      | some lhs => exact ⟨(lhs, opS), ⟨h2, h3, hf, ho⟩⟩
+  obtain ⟨names, hlen, hn⟩ : ∃ names : List (Bytes × Bytes), names.length = r.trips.length ∧
+      ∀ (i : Nat) (t : Nat × Nat × Nat) (nm : Bytes × Bytes), r.trips[i]? = some t → names[i]? = some nm → PTrip t nm.1 nm.2 := by
+    generalize r.trips = ts at hnames
+    induction ts with
+    | nil => exact ⟨[], rfl, by intro i t nm ht; simp at ht⟩
+    | cons t ts ih =>
+      obtain ⟨nm, hnm⟩ := hnames t (by simp)
+      obtain ⟨ns, hl', hn'⟩ := ih (fun x hx => hnames x (by simp [hx]))
+      refine ⟨nm :: ns, by simp [hl'], ?_⟩
+      intro i t' nm' ht' hnm'
+      cases i with
+      | zero => simp at ht' hnm'; subst ht'; subst hnm'; exact hnm
+      | succ j => exact hn' j t' nm' (by simpa using ht') (by simpa using hnm')
+  refine ⟨l, a, names, rfl, rfl, hlen, ?_, ?_⟩
+  · -- (1) the printed text
+    unfold cmdLineOf
+    rw [hl, ha]
+    simp only
+    rw [hw]
+    simp only
+    have hnoarch : lastIndexOf r.fields LA.Gen.RuleTables.archField = none := by
+      unfold lastIndexOf
+      have : (r.fields.zipIdx).filter (fun p => p.1 == LA.Gen.RuleTables.archField) = [] := by
+        rw [List.filter_eq_nil_iff]
+        intro p hpm
+        have hz := List.mem_zipIdx_iff_getElem?.mp hpm
+        simp only [RuleData.fields, List.getElem?_map, Option.map_eq_some_iff] at hz
+        obtain ⟨t, hti, htf⟩ := hz
+        have := (hcls t (List.mem_of_getElem? hti)).1
+        rw [htf] at this
+        simpa using this
+      rw [this]; rfl
+    rw [hnoarch]
+    simp only
+    have hpf := printFields_mixed r.trips names r.strings hal hlen hn
+    simp only [RuleData.fields, RuleData.values, RuleData.fieldFlags, hpf, hall, if_true]
+    simp [List.append_assoc]
+  · -- (2), (3)
+    have hj' : ∀ t ∈ r.trips, stringFields.contains t.1 = false → Justified env r.flags t :=
+      fun t ht hs => hjust t ht hs (hcls t ht).2
+    have hmatch := partsMixed_match env he r.flags r.trips names r.strings hlen hn hsa hj' hperm hstr
+    have hfold := foldl_addFilter_mixed env he r.trips names r.strings hlen hn
+      { flags := r.flags, action := r.action, allSyscalls := true } hsa hj' hperm
+    refine reparse_of_parts env r l a hl ha _ hmatch ?_ hall hsys
+    simpa using hfold
+
+/-- non-vacuity of `C07_roundtrip_filters`: `-a always,exit -F pid=1 -F exe=/bin/ls -F key=a\x01b`
+(what `-F pid=1 -F exe=/bin/ls -k a -k b` builds) satisfies its hypotheses. -/
+example : ((ruleDataOf ⟨false, [], []⟩ (.syscall 3 (ofString "exit") (ofString "always")
+    [⟨2, ofString "pid", [61], ofString "1"⟩, ⟨2, ofString "exe", [61], ofString "/bin/ls"⟩] [] [ofString "a", ofString "b"])).map (fun r =>
+      r.allSyscalls && r.syscalls.isEmpty && decide (r.trips.length = 3) && decide (r.strings.length = 2) &&
+      (asFileWatch r).isNone &&
+      r.strings.all (fun s => match s with | c :: _ => c != 61 | [] => false) &&
+      r.trips.all (fun t => !(t.1 == LA.Gen.RuleTables.archField) &&
         !(t.1 == LA.Gen.RuleTables.fieldCompare) && !(t.1 == LA.Gen.RuleTables.permField)))) = some true := by
   decide +kernel
 
